@@ -429,17 +429,20 @@ struct SelectArm {
     body: syn::Expr,
 }
 struct SelectBody {
+    biased: bool,
     arms: Vec<SelectArm>,
 }
 impl syn::parse::Parse for SelectBody {
     fn parse(input: ParseStream) -> syn::Result<Self> {
         // optional `biased;`
+        let mut biased = false;
         if input.peek(syn::Ident) && input.peek2(syn::Token![;]) {
             let id: syn::Ident = input.parse()?;
             if id != "biased" {
                 return Err(input.error("unexpected ident before `;` in select!"));
             }
             input.parse::<syn::Token![;]>()?;
+            biased = true;
         }
         let mut arms = vec![];
         while !input.is_empty() {
@@ -464,8 +467,57 @@ impl syn::parse::Parse for SelectBody {
         if arms.len() < 2 {
             return Err(input.error("select! with fewer than two arms"));
         }
-        Ok(SelectBody { arms })
+        Ok(SelectBody { biased, arms })
     }
+}
+
+/// R8b (rule `select_poll`): the polling order of `select!` is kept. Every arm's future must be a method call `R.m(args)`; its
+/// readiness at this poll is asked from the model (`R.vx_ready_m(args, epoch)`, a ghost bool), the winner is chosen by
+/// `vx_select_pick2/3(biased, r0, r1, ..)`: a ready arm, and with `biased;` the first ready arm in source order.
+fn select_to_expr_poll(ts: TokenStream) -> Result<syn::Expr, String> {
+    let sb: SelectBody = syn::parse2(ts).map_err(|e| format!("unsupported select! shape: {e}"))?;
+    let n = sb.arms.len();
+    if n > 3 {
+        return Err("unsupported: select! with more than three arms (select_poll)".into());
+    }
+    let biased = sb.biased;
+    let mut readies: Vec<syn::Stmt> = vec![];
+    let mut rnames: Vec<syn::Ident> = vec![];
+    for (i, arm) in sb.arms.iter().enumerate() {
+        let syn::Expr::MethodCall(m) = &arm.fut else {
+            return Err("unsupported: select! arm future is not a method call (select_poll)".into());
+        };
+        let rn = syn::Ident::new(&format!("__vx_r{i}"), proc_macro2::Span::call_site());
+        let f = syn::Ident::new(&format!("vx_ready_{}", m.method), proc_macro2::Span::call_site());
+        let (recv, args) = (&m.receiver, &m.args);
+        let call: syn::Expr = if args.is_empty() { syn::parse_quote!((#recv).#f(__vx_sel)) } else { syn::parse_quote!((#recv).#f(#args, __vx_sel)) };
+        readies.push(syn::parse_quote!(let #rn = #call;));
+        rnames.push(rn);
+    }
+    let pick = syn::Ident::new(&format!("vx_select_pick{n}"), proc_macro2::Span::call_site());
+    let mut acc: Option<syn::Expr> = None;
+    for (i, arm) in sb.arms.into_iter().enumerate().rev() {
+        let SelectArm { pat, fut, body } = arm;
+        let this: syn::Block = syn::parse_quote!({ let #pat = #fut; #body });
+        acc = Some(match acc {
+            None => syn::Expr::Block(syn::ExprBlock { attrs: vec![], label: None, block: this }),
+            Some(rest) => {
+                let rest_block: syn::Block = match rest {
+                    syn::Expr::Block(b) if b.label.is_none() => b.block,
+                    other => syn::parse_quote!({ #other }),
+                };
+                let lit = syn::LitInt::new(&format!("{i}usize"), proc_macro2::Span::call_site());
+                syn::parse_quote!(if __vx_k == #lit #this else #rest_block)
+            }
+        });
+    }
+    let chain = acc.unwrap();
+    Ok(syn::parse_quote!({
+        let __vx_sel = vx_select_enter();
+        #(#readies)*
+        let __vx_k = #pick(#biased, #(#rnames),*);
+        #chain
+    }))
 }
 
 fn select_to_expr(ts: TokenStream) -> Result<syn::Expr, String> {
@@ -493,6 +545,7 @@ fn select_to_expr(ts: TokenStream) -> Result<syn::Expr, String> {
 struct SelectRewrite {
     n: usize,
     err: Option<String>,
+    poll: bool,
 }
 fn is_select(m: &syn::Macro) -> bool {
     let p = crate::norm(&m.path);
@@ -502,7 +555,7 @@ impl VisitMut for SelectRewrite {
     fn visit_expr_mut(&mut self, e: &mut syn::Expr) {
         if let syn::Expr::Macro(m) = e {
             if is_select(&m.mac) {
-                match select_to_expr(m.mac.tokens.clone()) {
+                match (if self.poll { select_to_expr_poll(m.mac.tokens.clone()) } else { select_to_expr(m.mac.tokens.clone()) }) {
                     Ok(ne) => {
                         *e = ne;
                         self.n += 1;
@@ -519,7 +572,7 @@ impl VisitMut for SelectRewrite {
     fn visit_stmt_mut(&mut self, s: &mut syn::Stmt) {
         if let syn::Stmt::Macro(m) = s {
             if is_select(&m.mac) {
-                match select_to_expr(m.mac.tokens.clone()) {
+                match (if self.poll { select_to_expr_poll(m.mac.tokens.clone()) } else { select_to_expr(m.mac.tokens.clone()) }) {
                     Ok(ne) => {
                         *s = syn::Stmt::Expr(ne, m.semi_token);
                         self.n += 1;
@@ -534,8 +587,8 @@ impl VisitMut for SelectRewrite {
         visit_mut::visit_stmt_mut(self, s);
     }
 }
-pub fn rewrite_select(block: &mut syn::Block) -> Result<usize, String> {
-    let mut v = SelectRewrite { n: 0, err: None };
+pub fn rewrite_select(block: &mut syn::Block, poll: bool) -> Result<usize, String> {
+    let mut v = SelectRewrite { n: 0, err: None, poll };
     v.visit_block_mut(block);
     match v.err {
         Some(e) => Err(e),
